@@ -380,7 +380,12 @@ func (a *vzAdv) maybeAdvance() {
 func (a *vzAdv) refHR() (uint64, uint32) {
 	s := a.w.s
 	h, r := a.h, a.r
-	switch s.ChooseW("adv-where", []int{6, 2, 2, 1, 1, 1}) {
+	switch s.ChooseW("adv-where", []int{6, 2, 2, 1, 1, 1, 1}) {
+	case 6:
+		// below everything the node tracks: any height under the node's committing height, including
+		// heights below the initial height and height zero
+		h = uint64(s.Choose("lowh", int(h)))
+		r = uint32(s.Choose("r", 2))
 	case 1:
 		r++
 	case 2:
